@@ -5,7 +5,7 @@
     fixes/C07-*.diff applied); every [= Ok ...] below says: no read outside the message mapping, no
     store outside a staging buffer (no [Crash]) and termination (no [OutOfFuel]). *)
 From Qv Require Import Common.Bytes Gen.GenQrdata Model.Mime Model.QrData Spec.SmtpDataSpec
-  Proofs.QrNeedRecodeProofs Proofs.QrPlainSpecProofs Proofs.QrQpDecodeProofs Proofs.QrQpLegalProofs Proofs.QrQpTopProofs.
+  Proofs.QrNeedRecodeProofs Proofs.QrPlainSpecProofs Proofs.QrQpDecodeProofs Proofs.QrQpLegalProofs Proofs.QrQpTopProofs Proofs.QrWrapLineProofs.
 
 (** need_recode() decides exactly what the property needs: the message goes the recoding way iff it has
     an octet that is NUL or above 127 while 8BITMIME was not announced, or a line of more than 998 octets
@@ -47,6 +47,24 @@ Proof.
   exists st'. split; [exact E|]. split; [exact HL|]. exists d. exact Hd.
 Qed.
 Print Assumptions C06_qp_body.
+
+(** wrap_line(), the folding of one over-long header line (it is called for lines of 999 and more octets;
+    the theorem needs WL_LONG = 970): for every such line inside the message, with or without blanks, the
+    call terminates, reads nothing outside the line, stays inside sendbuf[1048], returns len, and what it
+    writes is legal SMTP data when the line itself has no CR/LF (and is 7 bit unless 8BITMIME): the
+    fragments are at most 970 octets, the first is dot-stuffed, the others start with a blank. *)
+Theorem C06_wrap_line : forall (m : bytes) (b len : nat) (ext8 : bool) (st : St),
+  b + len <= length m -> WL_LONG <= len ->
+  line_clean (sub m b len) -> (ext8 = false -> seven_bit (sub m b len)) ->
+  exists st' d, wrap_line m b len st = Ok (len, st') /\
+    concat (rev (out st')) = concat (rev (out st)) ++ d /\ legal_data ext8 d /\ lastlf st' = true.
+Proof.
+  intros m b len ext8 st Hwin Hlong Hc H7.
+  destruct (wrap_line_ok m b len Hwin st Hlong) as (st' & fs & E & Hcat & Hn & Hlen & (f0 & r & Efs & Hf0) & Hout & Hlf).
+  exists st', (render_frags fs). split; [exact E|]. split; [exact Hout|]. split; [|exact Hlf].
+  apply frags_legal; rewrite ?Hcat; auto. rewrite Efs. discriminate.
+Qed.
+Print Assumptions C06_wrap_line.
 
 (** the boolean checker that judges every C output accepts only legal data *)
 Theorem C06_checker_sound : forall (ext8 : bool) (d : bytes), legal_data_b ext8 d = true -> legal_data ext8 d.
